@@ -6,10 +6,17 @@ use jbonsai::model::voice::model::Model;
 use jbonsai::model::{load_htsvoice_file, Voice};
 use jbonsai::Engine;
 
-fn push_entry(line: &mut String, m: &Model, state: usize, label: &jlabel::Label) {
+/// `handed`: the Gaussian that `Models` hands to synthesis for this entry (single voice, weight 1), when available; it
+/// replaces the voice-level entry in the comparison — the property speaks about what synthesis receives, bit for bit
+/// (seeded change C04g: the blend loses the sign of a negative-zero entry)
+fn push_entry(line: &mut String, m: &Model, state: usize, label: &jlabel::Label, handed: Option<(Vec<jbonsai::model::MeanVari>, Option<f64>)>) {
     let r = catch(std::panic::AssertUnwindSafe(|| {
         let (t, p) = m.get_index(state, label);
-        let par = m.get_parameter(state, label).clone();
+        let mut par = m.get_parameter(state, label).clone();
+        if let Some((ps, msd)) = handed {
+            par.parameters = ps;
+            par.msd = msd;
+        }
         (t, p, par)
     }));
     match r {
@@ -74,20 +81,37 @@ fn meta_line(path: &str, v: &Voice, e: &Engine) -> String {
     line
 }
 
-fn label_lines(path: &str, v: &Voice, labels: &[String]) {
+fn label_lines(path: &str, v: &Voice, e: &Engine, labels: &[String]) {
     let nstate = v.metadata.num_states;
-    for l in labels {
+    for (li, l) in labels.iter().enumerate() {
         let lab: jlabel::Label = l.parse().expect("label");
         let mut line = format!("hts {} {}", path, esc(&lab.to_string()));
-        push_entry(&mut line, &v.duration_model, 2, &lab);
+        // every other label: the values come from `Models` (what `Engine::generator` reads), not from the voice
+        let models = if li % 2 == 0 {
+            let one = [lab.clone()];
+            catch(std::panic::AssertUnwindSafe(|| {
+                let m = jbonsai::model::Models::new(&one, &e.voices, e.condition.get_interporation_weight());
+                let dur = m.duration();
+                let streams: Vec<(Vec<(Vec<jbonsai::model::MeanVari>, f64)>, Option<Vec<jbonsai::model::MeanVari>>)> = (0..v.stream_models.len())
+                    .map(|i| { let ms = m.model_stream(i); (ms.stream.iter().cloned().collect(), ms.gv.as_ref().map(|g| g.0.clone())) })
+                    .collect();
+                (dur, streams)
+            })).ok()
+        } else { None };
+        push_entry(&mut line, &v.duration_model, 2, &lab, models.as_ref().map(|m| (m.0.clone(), None)));
         push_u(&mut line, v.stream_models.len());
-        for s in &v.stream_models {
+        for (si, s) in v.stream_models.iter().enumerate() {
             push_u(&mut line, nstate);
             for st in 0..nstate {
-                push_entry(&mut line, &s.stream_model, st + 2, &lab);
+                let handed = models.as_ref().and_then(|m| m.1[si].0.get(st).map(|(ps, msd)| (ps.clone(), if s.metadata.is_msd { Some(*msd) } else { None })));
+                push_entry(&mut line, &s.stream_model, st + 2, &lab, handed);
             }
             match &s.gv_model {
-                Some(g) => { push_u(&mut line, 1); push_entry(&mut line, g, 2, &lab); }
+                Some(g) => {
+                    push_u(&mut line, 1);
+                    let handed = models.as_ref().and_then(|m| m.1[si].1.clone()).map(|ps| (ps, None));
+                    push_entry(&mut line, g, 2, &lab, handed);
+                }
                 None => push_u(&mut line, 0),
             }
         }
@@ -106,7 +130,7 @@ pub fn gen(seed: u64, thorough: bool) {
     let mut labels: Vec<String> = if thorough { src.corpus.clone() } else { (0..nb / 2).map(|_| src.corpus[rng.below(src.corpus.len())].clone()).collect() };
     let nrec = if thorough { 4000 } else { nb / 2 };
     labels.extend(src.labels(&mut rng, nrec, true));
-    label_lines(BUNDLED_VOICE, &bundled, &labels);
+    label_lines(BUNDLED_VOICE, &bundled, &be, &labels);
     // generated voices
     let nv = if thorough { 120 } else { 14 };
     for i in 0..nv {
@@ -124,6 +148,6 @@ pub fn gen(seed: u64, thorough: bool) {
         let n = if thorough { 60 } else { 20 };
         let mut labels = src.labels(&mut rng, n / 2, false);
         labels.extend(src.labels(&mut rng, n / 2, true));
-        label_lines(&path, &v, &labels);
+        label_lines(&path, &v, &e, &labels);
     }
 }
